@@ -177,12 +177,16 @@ Section StepLaw.
 
   Lemma step_slot s o : o_slot (snd (step E s o)) = fst (step E s o).
   Proof.
-    unfold step. destruct o as [v|].
+    unfold step. destruct o as [v| |].
     - destruct (e_validate E v) as [w|]; [|reflexivity]. destruct (e_kind E) as [m|].
       + destruct (is_nil hs); [reflexivity|]. destruct (match m with MNone => true | _ => negb (readable E s =? w) end);
           [destruct (notify E (OVal (readable E s)) w)|]; reflexivity.
       + destruct (notify E OUndefined w). reflexivity.
     - destruct (e_kind E); [|reflexivity]. destruct s; [reflexivity|]. destruct (notify E OUninitialized (e_default E)). reflexivity.
+    - destruct (e_kind E) as [m|]; [|reflexivity]. destruct s as [old|]; [|reflexivity].
+      destruct (is_nil hs); [reflexivity|]. destruct (notify E OUninitialized (e_default E)).
+      destruct (match m with MNone => true | _ => negb (old =? e_default E) end);
+        [destruct (notify E (OVal old) (e_default E))|]; reflexivity.
   Qed.
 
   Lemma notify_uninitialized w : notify E OUninitialized w = ([], []).
@@ -197,7 +201,7 @@ Section StepLaw.
 
   Lemma step_law s o : law_step E s o (snd (step E s o)) = [].
   Proof.
-    unfold step, law_step. destruct o as [v|].
+    unfold step, law_step. destruct o as [v| |].
     - (* Assign *)
       destruct (e_validate E v) as [w|]; [|reflexivity].
       destruct (e_kind E) as [m|] eqn:K.
@@ -251,6 +255,8 @@ Section StepLaw.
       destruct (e_kind E) as [m|]; [|reflexivity].
       destruct s as [x|]; [reflexivity|].
       rewrite notify_uninitialized. reflexivity.
+    - (* Delete: the law is silent *)
+      reflexivity.
   Qed.
 
   Theorem run_law ops : forall s i, law_hist E i s (run E s ops) = [].
@@ -283,12 +289,25 @@ Section Spec.
     end.
   Definition after_read (s : option val) : option val :=
     match e_kind E with TEvent => s | TNormal _ => Some (readable E s) end.
+  (* `del`: the entry is removed; when notifiers exist the default is read back (and stored) at once *)
+  Definition after_delete (s : option val) : option val :=
+    match e_kind E, s with
+    | TNormal _, Some _ => if is_nil hs then None else Some (e_default E)
+    | _, _ => s
+    end.
 
   (* the calls handler h must receive over a history, defined without the notification machinery *)
   Fixpoint spec_calls (h : handler) (s : option val) (ops : list op) : list call :=
     match ops with
     | [] => []
     | Read :: r => spec_calls h (after_read s) r
+    | Delete :: r =>                      (* like assigning the default, without validation, when a value is stored *)
+        match e_kind E, s with
+        | TNormal _, Some old =>
+            (if counts_as_change h old (e_default E) then [(h_id h, OVal old, e_default E)] else [])
+            ++ spec_calls h (after_delete s) r
+        | _, _ => spec_calls h s r
+        end
     | Assign v :: r =>
         match e_validate E v with
         | None => spec_calls h s r
@@ -323,6 +342,16 @@ Section Spec.
   Lemma step_rejected s v : e_validate E v = None -> step E s (Assign v) = (s, mkObs TraitError s [] []).
   Proof. intros H. unfold step. rewrite H. reflexivity. Qed.
 
+  Lemma accepted_counts h old w m : e_kind E = TNormal m ->
+    (match m with MNone => true | _ => negb (old =? w) end) && accepted E h (OVal old) w = counts_as_change h old w.
+  Proof.
+    intros K. unfold accepted, counts_as_change, unequal. rewrite K. destruct m; try reflexivity.
+    - rewrite andb_true_r. reflexivity.
+    - destruct (negb (old =? w)); [|reflexivity]. cbn [andb].
+      destruct (h_mech h); [destruct (e_ne E old w)|destruct (e_ne E old w)|destruct (e_ne E old w)
+        |destruct (e_ne E old w)|destruct (e_ne E old w)|destruct (e_eq E old w)]; reflexivity.
+  Qed.
+
   Lemma step_assign_calls h s v w : In h hs -> e_validate E v = Some w ->
     calls_of (h_id h) (o_calls (snd (step E s (Assign v))))
     = match e_kind E with
@@ -331,19 +360,37 @@ Section Spec.
       end
     /\ fst (step E s (Assign v)) = match e_kind E with TEvent => s | TNormal _ => Some w end.
   Proof.
-    intros Hin Hv. unfold step. rewrite Hv. unfold counts_as_change, unequal. destruct (e_kind E) as [m|] eqn:K.
+    intros Hin Hv. unfold step. rewrite Hv. destruct (e_kind E) as [m|] eqn:K.
     - destruct (is_nil hs) eqn:Hnil; [destruct hs; [destruct Hin|discriminate]|].
       set (old := readable E s).
       destruct (match m with MNone => true | _ => negb (old =? w) end) eqn:Ch.
       + pose proof (notify_calls_of E (OVal old) w h Hwf Hin) as N.
         destruct (notify E (OVal old) w) as [cs sk]. cbn [fst snd o_calls] in *. rewrite N. split; [|reflexivity].
-        unfold accepted. rewrite K. destruct m; try reflexivity.
-        * rewrite Ch. reflexivity.
-        * rewrite Ch. cbn [andb]. destruct (h_mech h); [destruct (e_ne E old w)|destruct (e_ne E old w)|destruct (e_ne E old w)
-            |destruct (e_ne E old w)|destruct (e_eq E old w)]; reflexivity.
-      + cbn [fst snd o_calls]. split; [|reflexivity]. destruct m; try discriminate; rewrite Ch; reflexivity.
+        rewrite <- (accepted_counts h old w m K), Ch. reflexivity.
+      + cbn [fst snd o_calls]. split; [|reflexivity].
+        rewrite <- (accepted_counts h old w m K), Ch. reflexivity.
     - pose proof (notify_calls_of E OUndefined w h Hwf Hin) as N.
       destruct (notify E OUndefined w) as [cs sk]. cbn [fst snd o_calls] in *. rewrite N. split; reflexivity.
+  Qed.
+
+  Lemma step_delete_calls h s : In h hs ->
+    calls_of (h_id h) (o_calls (snd (step E s Delete)))
+    = match e_kind E, s with
+      | TNormal _, Some old => if counts_as_change h old (e_default E) then [(h_id h, OVal old, e_default E)] else []
+      | _, _ => []
+      end
+    /\ fst (step E s Delete) = after_delete s.
+  Proof.
+    intros Hin. unfold step, after_delete. destruct (e_kind E) as [m|] eqn:K; [|split; reflexivity].
+    destruct s as [old|]; [|split; reflexivity].
+    destruct (is_nil hs) eqn:Hnil; [destruct hs; [destruct Hin|discriminate]|].
+    rewrite notify_uninitialized.
+    destruct (match m with MNone => true | _ => negb (old =? e_default E) end) eqn:Ch.
+    - pose proof (notify_calls_of E (OVal old) (e_default E) h Hwf Hin) as N.
+      destruct (notify E (OVal old) (e_default E)) as [cs sk]. cbn [fst snd o_calls app] in *. rewrite N. split; [|reflexivity].
+      rewrite <- (accepted_counts h old (e_default E) m K), Ch. reflexivity.
+    - cbn [fst snd o_calls app]. split; [|reflexivity].
+      rewrite <- (accepted_counts h old (e_default E) m K), Ch. reflexivity.
   Qed.
 
   Theorem calls_exact h : In h hs -> forall ops s,
@@ -351,36 +398,47 @@ Section Spec.
   Proof.
     intros Hin. induction ops as [|o r IH]; intros s; [reflexivity|]. cbn [run].
     destruct (step E s o) as [s' ob] eqn:St. cbn [all_calls flat_map snd]. rewrite calls_of_app. fold (all_calls (run E s' r)).
-    rewrite IH. destruct o as [v|].
+    rewrite IH. destruct o as [v| |].
     - cbn [spec_calls]. destruct (e_validate E v) as [w|] eqn:Hv.
       + destruct (step_assign_calls h s v w Hin Hv) as [C S]. rewrite St in C, S. cbn [fst snd] in C, S. rewrite C, S.
         destruct (e_kind E); reflexivity.
       + rewrite (step_rejected s v Hv) in St. inversion St; subst. reflexivity.
     - cbn [spec_calls]. pose proof (step_read_state s) as S. destruct (step_read_silent s) as [C _].
       rewrite St in S, C. cbn [fst snd] in S, C. rewrite C, S. reflexivity.
+    - cbn [spec_calls]. destruct (step_delete_calls h s Hin) as [C S]. rewrite St in C, S. cbn [fst snd] in C, S.
+      rewrite C, S. unfold after_delete. destruct (e_kind E) as [m|]; [destruct s as [old|]|]; reflexivity.
   Qed.
 
   (* old and new of every call are truthful *)
   Lemma calls_truthful s o c : In c (o_calls (snd (step E s o))) ->
-    exists v w, o = Assign v /\ e_validate E v = Some w /\ snd c = w /\
-      match e_kind E with
-      | TEvent => snd (fst c) = OUndefined
-      | TNormal _ => snd (fst c) = OVal (readable E s) /\ readable E (fst (step E s o)) = w
-      end.
+    (exists v w, o = Assign v /\ e_validate E v = Some w /\ snd c = w /\
+       match e_kind E with
+       | TEvent => snd (fst c) = OUndefined
+       | TNormal _ => snd (fst c) = OVal (readable E s) /\ readable E (fst (step E s o)) = w
+       end)
+    \/ (o = Delete /\ snd (fst c) = OVal (readable E s) /\ snd c = e_default E
+        /\ readable E (fst (step E s o)) = e_default E).
   Proof.
-    destruct o as [v|].
+    destruct o as [v| |].
     - unfold step. destruct (e_validate E v) as [w|] eqn:Hv; [|intros []].
       destruct (e_kind E) as [m|].
       + destruct (is_nil hs); [intros []|].
         destruct (match m with MNone => true | _ => negb (readable E s =? w) end).
         * pose proof (notify_truthful E (OVal (readable E s)) w c) as T.
           destruct (notify E (OVal (readable E s)) w) as [cs sk]. cbn [fst snd o_calls] in *. intros Hc.
-          destruct (T Hc) as [T1 T2]. exists v, w. repeat split; assumption.
+          destruct (T Hc) as [T1 T2]. left. exists v, w. repeat split; assumption.
         * intros [].
       + pose proof (notify_truthful E OUndefined w c) as T.
         destruct (notify E OUndefined w) as [cs sk]. cbn [fst snd o_calls] in *. intros Hc.
-        destruct (T Hc) as [T1 T2]. exists v, w. repeat split; assumption.
+        destruct (T Hc) as [T1 T2]. left. exists v, w. repeat split; assumption.
     - destruct (step_read_silent s) as [C _]. rewrite C. intros [].
+    - unfold step. destruct (e_kind E) as [m|]; [|intros []]. destruct s as [old|]; [|intros []].
+      destruct (is_nil hs); [intros []|]. rewrite notify_uninitialized.
+      destruct (match m with MNone => true | _ => negb (old =? e_default E) end).
+      + pose proof (notify_truthful E (OVal old) (e_default E) c) as T.
+        destruct (notify E (OVal old) (e_default E)) as [cs sk]. cbn [fst snd o_calls app] in *. intros Hc.
+        destruct (T Hc) as [T1 T2]. right. repeat split; assumption.
+      + intros [].
   Qed.
 
   (* == and != are coherent: != answers False exactly when == answers True (what Python guarantees
@@ -392,17 +450,19 @@ Section Spec.
   Lemma spec_calls_agree h1 h2 : coherent_eq -> forall ops s,
     map strip (spec_calls h1 s ops) = map strip (spec_calls h2 s ops).
   Proof.
-    intros Hc. induction ops as [|o r IH]; intros s; [reflexivity|]. destruct o as [v|]; cbn [spec_calls]; [|apply IH].
-    destruct (e_validate E v) as [w|]; [|apply IH]. destruct (e_kind E) as [m|] eqn:K.
-    - rewrite !map_app, IH. f_equal.
-      assert (counts_as_change h1 (readable E s) w = counts_as_change h2 (readable E s) w) as ->.
-      { unfold counts_as_change. rewrite K. destruct m; try reflexivity. f_equal. unfold unequal.
-        pose proof (Hc (readable E s) w) as [H1 H2].
-        destruct (h_mech h1), (h_mech h2); try reflexivity;
-          destruct (e_eq E (readable E s) w) eqn:Eq, (e_ne E (readable E s) w) eqn:Ne; try reflexivity;
-          try (specialize (H1 eq_refl); discriminate); try (specialize (H2 eq_refl); discriminate). }
-      destruct (counts_as_change h2 (readable E s) w); reflexivity.
-    - cbn [map]. rewrite IH. reflexivity.
+    intros Hc.
+    assert (forall o w, counts_as_change h1 o w = counts_as_change h2 o w) as Hcc.
+    { intros o w. unfold counts_as_change. destruct (e_kind E) as [m|]; [|reflexivity]. destruct m; try reflexivity. f_equal.
+      unfold unequal. pose proof (Hc o w) as [H1 H2].
+      destruct (h_mech h1), (h_mech h2); try reflexivity;
+        destruct (e_eq E o w) eqn:Eq, (e_ne E o w) eqn:Ne; try reflexivity;
+        try (specialize (H1 eq_refl); discriminate); try (specialize (H2 eq_refl); discriminate). }
+    induction ops as [|o r IH]; intros s; [reflexivity|]. destruct o as [v| |]; cbn [spec_calls]; [|apply IH|].
+    - destruct (e_validate E v) as [w|]; [|apply IH]. destruct (e_kind E) as [m|] eqn:K.
+      + rewrite !map_app, IH, Hcc. destruct (counts_as_change h2 (readable E s) w); reflexivity.
+      + cbn [map]. rewrite IH. reflexivity.
+    - destruct (e_kind E) as [m|]; [|apply IH]. destruct s as [old|]; [|apply IH].
+      rewrite !map_app, IH, Hcc. destruct (counts_as_change h2 old (e_default E)); reflexivity.
   Qed.
 
   Theorem mechanisms_agree h1 h2 : coherent_eq -> In h1 hs -> In h2 hs -> forall ops s,
@@ -414,12 +474,16 @@ Section Spec.
     o_sink (snd (step E s o))
     = filter (fun c : call => existsb (fun h => (h_id h =? fst (fst c)) && h_raises h) hs) (o_calls (snd (step E s o))).
   Proof.
-    destruct o as [v|].
+    destruct o as [v| |].
     - unfold step. destruct (e_validate E v) as [w|]; [|reflexivity]. destruct (e_kind E) as [m|].
       + destruct (is_nil hs); [reflexivity|]. destruct (match m with MNone => true | _ => negb (readable E s =? w) end); [|reflexivity].
         pose proof (notify_sink E (OVal (readable E s)) w Hwf) as N. destruct (notify E (OVal (readable E s)) w). exact N.
       + pose proof (notify_sink E OUndefined w Hwf) as N. destruct (notify E OUndefined w). exact N.
     - destruct (step_read_silent s) as [C S]. rewrite C, S. reflexivity.
+    - unfold step. destruct (e_kind E) as [m|]; [|reflexivity]. destruct s as [old|]; [|reflexivity].
+      destruct (is_nil hs); [reflexivity|]. rewrite notify_uninitialized.
+      destruct (match m with MNone => true | _ => negb (old =? e_default E) end); [|reflexivity].
+      pose proof (notify_sink E (OVal old) (e_default E) Hwf) as N. destruct (notify E (OVal old) (e_default E)). exact N.
   Qed.
 End Spec.
 
@@ -448,7 +512,7 @@ Section Transparent.
     fst (step (set_raises fr E) s o) = fst (step E s o)
     /\ visible (snd (step (set_raises fr E) s o)) = visible (snd (step E s o)).
   Proof.
-    destruct o as [v|]; unfold step; cbn [e_validate e_kind e_default set_raises].
+    destruct o as [v| |]; unfold step; cbn [e_validate e_kind e_default set_raises].
     - destruct (e_validate E v) as [w|]; [|split; reflexivity]. destruct (e_kind E) as [m|].
       + assert (is_nil (e_handlers (set_raises fr E)) = is_nil (e_handlers E)) as -> by (cbn; destruct (e_handlers E); reflexivity).
         destruct (is_nil (e_handlers E)); [split; reflexivity|].
@@ -463,6 +527,16 @@ Section Transparent.
       pose proof (notify_calls_set_raises fr OUninitialized (e_default E)) as N.
       destruct (notify (set_raises fr E) OUninitialized (e_default E)), (notify E OUninitialized (e_default E)).
       cbn in N. subst. split; reflexivity.
+    - destruct (e_kind E) as [m|]; [|split; reflexivity]. destruct s as [old|]; [|split; reflexivity].
+      assert (is_nil (e_handlers (set_raises fr E)) = is_nil (e_handlers E)) as -> by (cbn; destruct (e_handlers E); reflexivity).
+      destruct (is_nil (e_handlers E)); [split; reflexivity|].
+      pose proof (notify_calls_set_raises fr OUninitialized (e_default E)) as N0.
+      pose proof (notify_calls_set_raises fr (OVal old) (e_default E)) as N1.
+      destruct (notify (set_raises fr E) OUninitialized (e_default E)), (notify E OUninitialized (e_default E)).
+      cbn in N0. subst.
+      destruct (match m with MNone => true | _ => negb (old =? e_default E) end); [|split; reflexivity].
+      destruct (notify (set_raises fr E) (OVal old) (e_default E)), (notify E (OVal old) (e_default E)).
+      cbn in N1. subst. split; reflexivity.
   Qed.
 
   Theorem raising_transparent ops : forall s,
